@@ -79,9 +79,9 @@ def _verify_one(args):
             'sha': {}, 'wall_s': time.time() - t0, 'solver': {}, 'paths': 0, 'crashed': True}
 
 
-def run_deductive(pid, workers):
+def run_deductive(pid, workers, tier='quick'):
     from contracts import registry
-    tasks = registry.tasks(pid)
+    tasks = registry.tasks(pid, tier)
     if not tasks:
         return [], []
     ctx = mp.get_context('fork')
@@ -234,7 +234,7 @@ def main():
     findings = load_findings()
     violations = []
     known_lines = []
-    obs, outs = ([], []) if a.no_deductive else run_deductive(pid, a.workers)
+    obs, outs = ([], []) if a.no_deductive else run_deductive(pid, a.workers, tier)
     bounded = None if a.no_bounded else run_bounded(pid, tier, seed, a.workers)
 
     proved = [o for o in obs if o['verdict'] == 'proved']
